@@ -109,6 +109,11 @@ type script struct {
 	// idle is the QUIC MaxIdleTimeout of the real stack for this script (default 30 s); scripts
 	// that need to observe an idle timeout set it small.
 	idle time.Duration
+	// maxStreams, when >0, limits the bidirectional streams the server accepts from a client:
+	// real: quic.Config.MaxIncomingStreams of the listener; fake: vquic has no accounting of its
+	// own, the limit is injected through Conn.OpenStreamErr the way harness/C16 injects it (the
+	// VALUE quic.StreamLimitReachedError{}).
+	maxStreams int
 	// expectMismatch marks a known deviation of the fake (documented in DEVIATIONS.md): the
 	// suite lists it in a Note instead of failing.
 	expectMismatch bool
@@ -174,9 +179,13 @@ func classify(err error) string {
 	if errors.As(err, &te) {
 		return fmt.Sprintf("TransportError{code=%#x,remote=%v}", uint64(te.ErrorCode), te.Remote)
 	}
+	// what hysteria's client does with an OpenStream error (core/client/client.go
+	// wrapIfConnectionClosed): errors.Is(err, quic.StreamLimitReachedError{}) decides between
+	// "recoverable" and ClosedError. The dynamic type (value vs pointer) matters for that.
 	var sl quic.StreamLimitReachedError
-	if errors.As(err, &sl) {
-		return "StreamLimitReached"
+	var slp *quic.StreamLimitReachedError
+	if errors.As(err, &sl) || errors.As(err, &slp) {
+		return fmt.Sprintf("StreamLimitReached{hysteria-treats-as-recoverable=%v}", errors.Is(err, quic.StreamLimitReachedError{}))
 	}
 	if errors.Is(err, quic.ErrServerClosed) {
 		return "ServerClosed"
